@@ -24,6 +24,8 @@ analysable and outside the rule.
                the mask-selected results: r = (a == 0 ? 0 : n - a), r' = (r == 0 ? 0 : flag ? n - r : r) (mod 2^256),
                2 r = a + (a & 1) n, every word of r' is flag ? a : r — select masks (-(bit), bit - 1, bit + ~0, ~mask,
                0xFF..F * bit) are tracked as such: x & mask = bit x, x ^ mask = x + bit (2^w - 1 - 2 x)
+  get_bits     scalar_get_bits_var(a, offset, count) = floor(a / 2^offset) mod 2^count for all 7696 admitted (offset, count)
+  cadd_bit     r' = r + flag 2^bit (mod 2^256) for all 256 bit positions and both flag values
   mul_shift    for each constant shift its callers use: the limbs stored to r are floor(a b / 2^shift) and the rounding
                bit handed to scalar_cadd_bit is bit shift-1 of the product                scalar_mul_shift_var
 
@@ -62,6 +64,8 @@ SPECS = [
     ("secp256k1_scalar_cmov", "cmov"),
     ("secp256k1_fe_cmov", "cmov"),
     ("secp256k1_fe_storage_cmov", "cmov"),
+    ("secp256k1_scalar_get_bits_var", "get_bits"),
+    ("secp256k1_scalar_cadd_bit", "cadd_bit"),
 ]
 # C05 is the home of the arithmetic; C01 / C02 quantify their signature equations "on every build configuration" and
 # consist of nothing but this arithmetic, so a wrong product in a portable configuration breaks them as well
@@ -530,7 +534,63 @@ def _cmov(prog, f):
     return _verdict(L, L.reduce(R), None, "every word of r' is flag ? a : r (%d words of %d bits)" % (len(keys), wbits)), L
 
 
-KINDS = {"scalar_negate": _scalar_negate, "scalar_cond_negate": _scalar_cond_negate, "scalar_half": _scalar_half, "cmov": _cmov,
+def _get_bits(prog, f):
+    """secp256k1_scalar_get_bits_var(a, offset, count) = floor(a / 2^offset) mod 2^count for every offset and count the
+    contract admits (count in 1..32, offset + count <= 256): the control flow depends on the two integers only, so each of
+    the 7696 pairs is interpreted with the scalar symbolic."""
+    W, n = _scalar_layout(prog)
+    a, op_, cp = [p["name"] for p in f.params[:3]]
+    runs, L = 0, None
+    for count in range(1, 33):
+        for offset in range(0, 257 - count):
+            L = Limbs(prog, lambda key: (1 << W) - 1 if key.startswith(a + "[0].d[") else None)
+            L.eval_root_return = True
+            L.mem[op_] = Val(pconst(offset), offset)
+            L.mem[cp] = Val(pconst(count), count)
+            fr = L.run(f)
+            runs += 1
+            if fr.ret is None or L.undecided:
+                raise Undecided("offset %d count %d: %s" % (offset, count, (L.undecided or ["no value returned"])[0]))
+            i, s_ = offset // W, offset % W
+            Q = {}
+            for k in range(i, n):
+                key = "%s[0].d[%d]" % (a, k)
+                if key not in L.inputs:
+                    L.inputs[key] = L.new_atom("in", (1 << W) - 1, desc=key)
+                v = Val(patom(L.inputs[key]), (1 << W) - 1)
+                if k == i:
+                    Q = padd(Q, L.split(v, 1 << s_, "a >> offset")[1].p if s_ else v.p)
+                else:
+                    Q = padd(Q, pscale(v.p, 1 << (W * (k - i) - s_)))
+            wrong, dropped, unk = L.residual_report(padd(fr.ret.p, Q, -1), 1 << count)
+            if fr.ret.ub >= (1 << count):
+                return (False, "offset %d, count %d: the result can reach %s, not below 2^%d" % (offset, count, hex(fr.ret.ub), count)), L
+            if wrong or dropped or unk:
+                return (False, "offset %d, count %d: the result is not bits %d..%d of the scalar" % (offset, count, offset, offset + count - 1)), L
+    return (True, "floor(a / 2^offset) mod 2^count for all %d admitted (offset, count) pairs" % runs), L
+
+
+def _cadd_bit(prog, f):
+    W, n = _scalar_layout(prog)
+    r, bp, fp = [p["name"] for p in f.params[:3]]
+    L = None
+    for flag in (0, 1):
+        for bit in range(256):
+            L = Limbs(prog, lambda key: (1 << W) - 1 if key.startswith(r + "[0].d[") else None)
+            L.mem[bp] = Val(pconst(bit), bit)
+            L.mem[fp] = Val(pconst(flag), flag)
+            L.run(f)
+            if L.undecided:
+                raise Undecided("bit %d flag %d: %s" % (bit, flag, L.undecided[0]))
+            X = _sum(L, ["%s[0].d[%d]" % (r, k) for k in range(n)], W)
+            E = padd(_insum(L, r + "[0].d[%d]", n, W), pconst(flag << bit))
+            wrong, dropped, unk = L.residual_report(padd(X, E, -1), 1 << 256)
+            if wrong or dropped or unk:
+                return (False, "bit %d, flag %d: r' is not r + flag 2^bit (mod 2^256)" % (bit, flag)), L
+    return (True, "r' = r + flag 2^bit (mod 2^256) for all 256 bit positions and both flag values"), L
+
+
+KINDS = {"get_bits": _get_bits, "cadd_bit": _cadd_bit, "scalar_negate": _scalar_negate, "scalar_cond_negate": _scalar_cond_negate, "scalar_half": _scalar_half, "cmov": _cmov,
          "i128_rshift": _i128_rshift, "fe_weak": _fe_weak, "fe_weak_m32": _fe_weak32, "fe_half": _fe_half, "fe_negate": _fe_negate, "fe_mul_int": _fe_mul_int, "fe_add": _fe_add,
          "product": _product, "reduce512": _reduce512, "reduce": _reduce, "add": _add, "fe_product": _fe_product, "mul_shift": _mul_shift}
 
